@@ -41,6 +41,12 @@ use vcommon::{
 /// (the verdict never depends on it)
 const TABLE_EDGE: u64 = 25;
 
+/// documented in utils.rs: above `ROUNDING_ERROR_CUTOFF` the estimator adds
+/// `ROUNDING_ERROR_COMPENSATION` "to guarantee that the actual gas price is always equal or
+/// less than the estimate". Used for signature classification only.
+const COMPENSATION_CUTOFF: u64 = 16948547188989277;
+const COMPENSATION: u64 = 2000;
+
 #[derive(Clone, Copy, Debug, PartialEq, Eq, Hash)]
 pub enum Path {
     /// cumulative_percentage_change
@@ -165,6 +171,12 @@ fn run_family(ctx: &Ctx, local: &mut Local, f: &Family, mode: &str) {
         }
         local.eval();
         local.count(&format!("calls.{}", region(h as u64, f.pct)));
+        if f.price < COMPENSATION_CUTOFF / 2 && c >= COMPENSATION_CUTOFF && c < COMPENSATION_CUTOFF.saturating_mul(2) {
+            local.count("observed.compounded_just_above_cutoff_from_price_well_below");
+            if (5..=10).contains(&h) && (f.pct == 30 || f.pct == 50) {
+                local.count("observed.compounded_just_above_cutoff.pct30or50_blocks5to10");
+            }
+        }
         if c == u64::MAX && f.price != u64::MAX {
             local.count("observed.compounded_saturated");
         }
@@ -213,6 +225,11 @@ fn run_family(ctx: &Ctx, local: &mut Local, f: &Family, mode: &str) {
             // self-test 3: a wrapper that rounds the estimate down to a multiple of 1024
             got_obs = got & !1023;
         }
+        if ctx.st == Some(4) && f.price < COMPENSATION_CUTOFF && got > COMPENSATION_CUTOFF + COMPENSATION && got < u64::MAX {
+            // self-test 4: a wrapper that decides the +2000 compensation from the *input* price
+            // instead of the compounded product, i.e. the compensation is missing here
+            got_obs = got - COMPENSATION;
+        }
         if let Some(p) = prev {
             if got_obs < p {
                 let reg = if region(h as u64 - 1, f.pct) != region(h as u64, f.pct) {
@@ -235,21 +252,45 @@ fn run_family(ctx: &Ctx, local: &mut Local, f: &Family, mode: &str) {
         }
         if got_obs < c {
             let deficit = c - got_obs;
-            // Classification only (the verdict is the strict comparison above): a deficit
-            // that is within 2^-40 of a compounded price above 2^46 can only come from the
-            // f64 arithmetic of the estimator (exp/ln/table constants carry ~1e-15 relative
-            // error, i.e. >= 1 unit from ~2^47 on); anything else is a logic error.
-            let s = if c > (1u64 << 46) && (deficit as u128) << 40 <= c as u128 {
-                local.count("observed.deficit_within_f64_precision");
+            // Classification only (the verdict is the strict comparison above).
+            // `bound` = rounding error that the f64 evaluation of price*(1+pct/100)^h as
+            // exp(h*ln(1+pct/100)) can legitimately accumulate, in units in the last place of
+            // the result: the base 1+pct/100 is rounded once and that error is amplified h
+            // times (h units); ln() and the product h*ln() each perturb the exponent
+            // y = ln(c/price) relatively, which exp() turns into ~y units each (2y, with
+            // y <= 0.7*log2(c/price)); exp itself, the u64->f64 conversion and the final
+            // product add one each (3).
+            let log2_ratio = (64 - c.leading_zeros()).saturating_sub(63 - f.price.max(1).leading_zeros()) as u128;
+            let units: u128 = h as u128 + 3 + (14 * log2_ratio) / 10 + 2;
+            let bound: u128 = (units * (c as u128)) >> 52;
+            let above_cutoff = (c as u128) > COMPENSATION_CUTOFF as u128 + bound;
+            let s = if !above_cutoff {
+                // Below the documented cutoff (or within rounding distance of it, where the
+                // estimator's own f64 comparison may fall either way) the code documents no
+                // compensation at all.
+                if (deficit as u128) <= bound {
+                    local.count("observed.deficit_within_f64_precision.below_cutoff");
+                    if ctx.f64_class_counted_only {
+                        prev = Some(got_obs);
+                        continue;
+                    }
+                    "below_compounded f64_precision_only region=below_compensation_cutoff".to_string()
+                } else {
+                    format!("below_compounded region={} magnitude{}", region(h as u64, f.pct), magnitude(c))
+                }
+            } else if bound > COMPENSATION as u128 && deficit as u128 + COMPENSATION as u128 <= bound {
+                // Above the cutoff the documented +2000 was added, so the raw error is
+                // deficit+2000. Only where the rounding bound itself exceeds 2000 can float
+                // rounding alone defeat the compensation.
+                local.count("observed.deficit_within_f64_precision.above_cutoff_rounding_exceeds_compensation");
                 if ctx.f64_class_counted_only {
-                    // `--f64_precision count`: the lead decided to document this class as a
-                    // limit of the estimator instead of alarming on it
                     prev = Some(got_obs);
                     continue;
                 }
-                "below_compounded f64_precision_only".to_string()
+                "below_compounded f64_precision_only region=above_compensation_cutoff rounding_bound_exceeds_2000".to_string()
             } else {
-                format!("below_compounded region={} magnitude{}", region(h as u64, f.pct), magnitude(c))
+                // the documented compensation must cover float rounding here
+                "below_compounded region=above_compensation_cutoff".to_string()
             };
             local.violation(
                 ctx.report,
@@ -296,7 +337,11 @@ pub fn prices() -> Vec<u64> {
         1_000_000,
         1_000_000_007,
         1_000_000_000_000,
+        10u64.pow(14),
         10u64.pow(15),
+        2 * 10u64.pow(15),
+        3 * 10u64.pow(15),
+        5 * 10u64.pow(15),
         p53 / 4096,
         p53 / 64,
     ]
@@ -313,7 +358,7 @@ pub fn run(args: &Args, report: &Report) {
     let f64c = args.extra.get("f64_precision").map(|v| v == "count").unwrap_or(false);
     report.info("f64_precision_class", json!(if f64c { "counted only (observed.deficit_within_f64_precision)" } else { "reported as violation" }));
     let rule = "exhaustive grid: every horizon 0..=64 x every percentage 0..=64 x a fixed price set (0,1,2,3,7,99,100,101,1e3,12345,\
-                1e6,1e9+7,1e12,1e15,2^41,2^47 and the >=2^53 set 2^53-1,2^53,2^53+1,1e16,cutoff,1e17,1e18,u64::MAX/2,u64::MAX-1,\
+                1e6,1e9+7,1e12,1e14,1e15,2e15,3e15,5e15,2^41,2^47 and the >=2^53 set 2^53-1,2^53,2^53+1,1e16,cutoff,1e17,1e18,u64::MAX/2,u64::MAX-1,\
                 u64::MAX) x 2 base heights x 4 entry points — this contains the whole precomputed table, its edges and the \
                 table/formula boundary in both directions; plus seeded random families (log-uniform prices, percentages up to \
                 u16::MAX resp. u64 extremes on the direct path, horizons up to 2000). One evaluation = one (entry point, price, \
@@ -438,12 +483,14 @@ pub fn run(args: &Args, report: &Report) {
     if st.is_none() {
         report.require("calls.table", 500_000);
         report.require("calls.formula", 1_000_000);
-        report.require("grid.families", 13_000);
+        report.require("grid.families", 15_000);
         report.require("families.crossing_table_edge_in_horizon", 5_000);
         report.require("oracle.bound_held", 1_000_000);
         report.require("observed.compounded_saturated", 10_000);
         report.require("observed.estimate_saturated", 10_000);
         report.require("random.families", args.by_tier(40_000, 500_000));
+        report.require("observed.compounded_just_above_cutoff_from_price_well_below", 10_000);
+        report.require("observed.compounded_just_above_cutoff.pct30or50_blocks5to10", 50);
     }
     report.finish(args, "exploration", rule, false, &assumptions);
 }
